@@ -38,9 +38,9 @@ theorem flushHeaders_no_panic (w : World) (st : St) : (flushHeaders w st).2 = fa
 
 theorem reportEnd_no_panic (w : World) (st : St) (e : RespEnd) : (reportEnd w st e).2 = false := by
   unfold reportEnd
-  split
-  · rfl
-  · simp only
+  by_cases h1 : st.rw.endWritten = true
+  · simp [h1]
+  · simp only [h1, Bool.false_eq_true, if_false]
     split
     · rfl
     · exact flushHeaders_no_panic w _
